@@ -624,7 +624,15 @@ func (in *c13Interp) exec(line string) string {
 		} else {
 			o := in.openAt(kind, n, false)
 			for _, g := range o.getters {
-				classes = append(classes, c13Class(full, zz.Guard(func() string { return g(key) })))
+				first := c13Class(full, zz.Guard(func() string { return g(key) }))
+				// the same lookup again on the same open reader: a reader that remembers a failed read must not turn the
+				// error into an answer the second time
+				again := c13Class(full, zz.Guard(func() string { return g(key) }))
+				if again != first {
+					in.s.Count("repeat-lookup-differs")
+					first = first + "|repeat:" + again
+				}
+				classes = append(classes, first)
 			}
 		}
 		res := classes[0]
@@ -638,10 +646,21 @@ func (in *c13Interp) exec(line string) string {
 		if strings.HasPrefix(full, "found") {
 			// the oracle: a key the complete file answers must get the same answer or an error
 			for pi, c := range classes {
+				rep := ""
+				if i := strings.Index(c, "|repeat:"); i >= 0 {
+					// first and second answer of the same reader differ: judge the offending one
+					a, b := c[:i], c[i+len("|repeat:"):]
+					c, rep = a, ":on-repeat"
+					if a == "same" || a == "err" {
+						c = b
+					} else {
+						rep = ""
+					}
+				}
 				if c == "same" || c == "err" {
 					continue
 				}
-				vkey := "C13:" + kind + ":" + map[string]string{"NOTFOUND": "notfound-after-cut", "EMPTY": "empty-after-cut", "DIFFERENT": "different-after-cut", "PANIC": "panic-after-cut"}[c]
+				vkey := "C13:" + kind + rep + ":" + map[string]string{"NOTFOUND": "notfound-after-cut", "EMPTY": "empty-after-cut", "DIFFERENT": "different-after-cut", "PANIC": "panic-after-cut"}[c]
 				if in.nviol == nil {
 					in.nviol = map[string]int{}
 				}
